@@ -172,6 +172,7 @@ struct Dir
     int width_kind = 0; // 0 none 1 literal 2 star
     long width = 0;
     int prec_kind = 0;
+    bool prec_written = false; // a '.' appears in the directive (even if `*` then gives a negative value)
     long prec = 0;
     std::string len;
     char conv = 0;
@@ -217,6 +218,9 @@ static Parsed classify(const bytes &f, const std::vector<Arg> &args)
             next_int(d.width);
             if (d.width == INT_MIN) bad("width INT_MIN");
             i++;
+            // not ISO syntax, but igris skips digits here (it parses a precision
+            // without '.'), so the conversion that follows still takes its argument
+            while (i < f.size() && isdigit(f[i])) { bad("digits after *"); i++; }
         }
         else if (i < f.size() && isdigit(f[i]))
         {
@@ -233,6 +237,7 @@ static Parsed classify(const bytes &f, const std::vector<Arg> &args)
         {
             i++;
             d.prec_kind = 1;
+            d.prec_written = true;
             if (i < f.size() && f[i] == '*')
             {
                 d.prec_kind = 2;
@@ -267,9 +272,9 @@ static Parsed classify(const bytes &f, const std::vector<Arg> &args)
             d.len = std::string(1, (char)f[i]);
             i++;
         }
-        if (i >= f.size()) { bad("truncated directive"); break; }
+        if (i >= f.size()) { bad("truncated directive"); P.dirs.push_back(d); break; }
         d.conv = (char)f[i];
-        bool plain = !d.minus && !d.plus && !d.space && !d.hash && !d.zero && !d.width_kind && !d.prec_kind && d.len.empty();
+        bool plain = !d.minus && !d.plus && !d.space && !d.hash && !d.zero && !d.width_kind && !d.prec_written && d.len.empty();
         switch (d.conv)
         {
         case '%':
@@ -502,6 +507,372 @@ static void run_op(const std::vector<std::string> &w, const std::string &, out &
 }
 
 // ---------------------------------------------------------------- gen
-#include "C06_gen.inc"
+// ---- generator (included by C06.cpp) ------------------------------------
+static std::string arg_str(const Arg &a)
+{
+    switch (a.kind)
+    {
+    case 'i':
+    case 'l':
+        return std::string(1, a.kind) + ":" + std::to_string(a.v);
+    case 'p':
+    {
+        char b[40];
+        snprintf(b, sizeof b, "p:%llx", (unsigned long long)a.v);
+        return b;
+    }
+    case 'n':
+        return "n:";
+    default:
+        return std::string(1, a.kind) + ":" + hex(a.s);
+    }
+}
+static bytes B(const std::string &s) { return bytes(s.begin(), s.end()); }
+static Arg AI(long long v) { Arg a; a.kind = 'i'; a.v = (int)v; return a; }
+static Arg AL(long long v) { Arg a; a.kind = 'l'; a.v = v; return a; }
+static Arg AP(unsigned long long v) { Arg a; a.kind = 'p'; a.v = (long long)v; return a; }
+static Arg AS(const bytes &s, bool term) { Arg a; a.kind = term ? 's' : 'u'; a.s = s; return a; }
+
+static unsigned long long conv_u(const Dir &d, long long v)
+{
+    if (d.len == "hh") return (unsigned char)v;
+    if (d.len == "h") return (unsigned short)v;
+    if (d.len == "" || d.len == "L") return (unsigned int)v;
+    return (unsigned long long)v;
+}
+// the recorded findings' input classes (see known_findings.d/C06.jsonl)
+static std::string finding_key(const Parsed &P, const std::vector<Arg> &args)
+{
+    if (!P.defined)
+        return "";
+    std::string key;
+    for (auto &d : P.dirs)
+    {
+        std::string k;
+        if (d.hash && (d.conv == 'o' || d.conv == 'x' || d.conv == 'X'))
+        {
+            // `#` with a zero value: %#x prints 0x0 (any precision), %#o
+            // prints 00 when the effective precision is 1
+            unsigned long long u = conv_u(d, args[d.argi].v);
+            long prec = d.prec_kind ? d.prec : 1;
+            if (u == 0 && (d.conv != 'o' || prec == 1))
+                k = "C06-alt-zero";
+        }
+        if (d.conv == 'c' && (char)args[d.argi].v == 0)
+            k = "C06-c-nul";
+        if (!k.empty())
+        {
+            if (!key.empty() && key != k)
+                return "skip"; // two classes in one format: not generated
+            key = k;
+        }
+    }
+    return key;
+}
+
+static long g_emitted = 0;
+static void emit(const char *op, const bytes &f, const std::vector<Arg> &args, bool with_iso = false)
+{
+    if (args.size() > MAXARGS)
+        return;
+    Parsed P = classify(f, args);
+    std::string key = finding_key(P, args);
+    if (key == "skip")
+        return;
+    std::string line = hex(f);
+    for (auto &a : args)
+        line += " " + arg_str(a);
+    printf("%s%s %s\n", key.empty() ? "" : ("@F:" + key + " ").c_str(), op, line.c_str());
+    g_emitted++;
+    if (with_iso && P.defined)
+        printf("iso %s\n", line.c_str());
+}
+
+static const std::vector<long long> IVALS = {0, 1, -1, 42, -42, INT_MAX, INT_MIN, 255, 256, -128, 127, 128, -129, 65535, 65536, -32768, 32767, 32768, 7, 8, 9, 10, 100, -100, 0x7f00, 0xff00, 1000000, -999999};
+static const std::vector<long long> LVALS = {0, 1, -1, 42, -42, LLONG_MAX, LLONG_MIN, 2147483648LL, -2147483648LL, -2147483649LL, 4294967295LL, 4294967296LL, 9223372036854775807LL, -9223372036854775807LL, 255, 256, 65536, 1000000000000LL, -1000000000000LL, 8, 10, 16};
+static const std::vector<unsigned long long> PVALS = {0, 1, 0x1234, 0x7ffe12345678ull, 0xffffffffffffffffull, 0x8000000000000000ull, 0x1000000000000000ull, 0x0fffffffffffffffull, 0xdeadbeef};
+
+static long long rnd_int(rng &r)
+{
+    if (r.chance(60)) return r.pick(IVALS);
+    int bits = (int)r.range(1, 32);
+    long long v = (long long)(r.next() & ((1ull << bits) - 1));
+    return (int)(r.chance(40) ? -v : v);
+}
+static long long rnd_long(rng &r)
+{
+    if (r.chance(60)) return r.pick(LVALS);
+    int bits = (int)r.range(1, 64);
+    unsigned long long v = r.next() & (bits == 64 ? ~0ull : ((1ull << bits) - 1));
+    return (long long)(r.chance(40) ? (0 - v) : v);
+}
+static bytes rnd_text(rng &r, size_t n, bool allow_high)
+{
+    bytes s(n);
+    for (auto &c : s)
+    {
+        c = (uint8_t)r.range(32, 126);
+        if (allow_high && r.chance(15)) c = (uint8_t)r.range(128, 255);
+        if (r.chance(5)) c = (uint8_t)r.range(1, 31);
+        if (c == '%') c = '_';
+    }
+    return s;
+}
+// a string argument for a directive whose effective precision is `prec` (-1: none)
+static Arg rnd_str(rng &r, long prec)
+{
+    int mode = (int)r.below(prec >= 0 ? 7 : 4);
+    switch (mode)
+    {
+    case 0: return AS(B(""), true);
+    case 1: return AS(rnd_text(r, (size_t)r.range(1, 4), true), true);
+    case 2: return AS(rnd_text(r, (size_t)r.range(5, 24), true), true);
+    case 3: // unterminated allocation with an inner NUL
+    {
+        bytes s = rnd_text(r, (size_t)r.range(1, 8), true);
+        s[r.below(s.size())] = 0;
+        return AS(s, false);
+    }
+    case 4: return AS(rnd_text(r, (size_t)prec, true), false);                     // exactly `prec` bytes, no terminator
+    case 5: return AS(rnd_text(r, (size_t)prec + (size_t)r.range(1, 5), true), false); // longer, no terminator
+    default: return AS(rnd_text(r, (size_t)prec + (size_t)r.range(0, 3), true), true);
+    }
+}
+
+struct Spec
+{
+    std::string flags, width, prec, len;
+    char conv;
+    long wstar = 0, pstar = 0; // values for `*`
+};
+// append the directive text and its arguments
+static void put_dir(rng &r, const Spec &s, bytes &f, std::vector<Arg> &args)
+{
+    f.push_back('%');
+    for (char c : s.flags) f.push_back((uint8_t)c);
+    for (char c : s.width) f.push_back((uint8_t)c);
+    if (s.width == "*") args.push_back(AI(s.wstar));
+    for (char c : s.prec) f.push_back((uint8_t)c);
+    if (s.prec == ".*") args.push_back(AI(s.pstar));
+    for (char c : s.len) f.push_back((uint8_t)c);
+    f.push_back((uint8_t)s.conv);
+    long prec = -1;
+    if (s.prec == ".*") prec = s.pstar >= 0 ? s.pstar : -1;
+    else if (!s.prec.empty()) prec = atol(s.prec.c_str() + 1);
+    bool wide = s.len == "l" || s.len == "ll" || s.len == "j" || s.len == "z" || s.len == "t";
+    switch (s.conv)
+    {
+    case 'd': case 'i': case 'u': case 'o': case 'x': case 'X':
+        args.push_back(wide ? AL(rnd_long(r)) : AI(rnd_int(r)));
+        break;
+    case 'c':
+    {
+        static const std::vector<long long> cv = {65, 0, 255, 256 + 66, -1, 128, 32, 126, 256, -256, 48};
+        args.push_back(AI(r.chance(50) ? r.pick(cv) : r.range(33, 126)));
+        break;
+    }
+    case 's':
+        if (r.chance(2)) { Arg a; a.kind = 'n'; args.push_back(a); }
+        else args.push_back(rnd_str(r, prec));
+        break;
+    case 'p':
+        args.push_back(AP(r.chance(70) ? r.pick(PVALS) : r.next() >> r.below(64)));
+        break;
+    default:
+        break;
+    }
+}
+
+static const char *CONVS = "diuoxXcsp%";
+static const char *const LENS_[] = {"", "hh", "h", "l", "ll", "j", "z", "t"};
+static const std::vector<std::string> LENS(LENS_, LENS_ + 8);
+static const char *const WIDTHS_[] = {"", "1", "7", "12", "*"};
+static const std::vector<std::string> WIDTHS(WIDTHS_, WIDTHS_ + 5);
+static const char *const PRECS_[] = {"", ".", ".0", ".1", ".5", ".*"};
+static const std::vector<std::string> PRECS(PRECS_, PRECS_ + 6);
+struct Around { const char *first, *second; };
+static const Around AROUND[] = {{"", ""}, {"<", ">"}, {"a=", "."}, {"%%", " z"}, {"\t", "\n"}};
+
+static std::string flags_of(rng &r, unsigned mask)
+{
+    std::string fl;
+    const char *FL = "-+ #0";
+    for (int b = 0; b < 5; b++)
+        if (mask & (1u << b)) fl.push_back(FL[b]);
+    // random order, occasionally a repeated flag
+    for (size_t i = fl.size(); i > 1; i--) std::swap(fl[i - 1], fl[r.below(i)]);
+    if (!fl.empty() && r.chance(10)) fl.push_back(fl[r.below(fl.size())]);
+    return fl;
+}
+
+static void gen(rng &r, const std::string &tier)
+{
+    bool th = tier == "thorough";
+    // (1) the directive grammar, enumerated
+    int per = th ? 4 : 1;
+    long combo = 0;
+    for (unsigned mask = 0; mask < 32; mask++)
+        for (auto &wd : WIDTHS)
+            for (auto &pr : PRECS)
+                for (auto &ln : LENS)
+                    for (const char *cv = CONVS; *cv; cv++)
+                        for (int rep = 0; rep < per; rep++)
+                        {
+                            combo++;
+                            Spec s;
+                            s.flags = flags_of(r, mask);
+                            s.width = wd; s.prec = pr; s.len = ln; s.conv = *cv;
+                            s.wstar = r.range(-3, 12);
+                            s.pstar = r.chance(20) ? -1 : r.range(0, 9);
+                            const Around &ar = (*cv == 'p') ? AROUND[1] : AROUND[r.below(5)];
+                            bytes f = B(ar.first);
+                            std::vector<Arg> args;
+                            put_dir(r, s, f, args);
+                            for (const char *c = ar.second; *c; c++) f.push_back((uint8_t)*c);
+                            emit("pf", f, args, true);
+                        }
+    // (2) every integer boundary value through the plain and the most
+    //     interacting directives
+    {
+        static const char *const ds_[] = {"%d", "%i", "%u", "%o", "%x", "%X", "%+d", "% d", "%05d", "%-5d|", "%.5d", "%+.5d", "%08.3d", "%#o", "%#x", "%#X", "%.0d", "%.0u", "%.0x", "%+.0d", "%#.0o", "%#.0x", "%*d", "%-*d|", "%.*d", "%5.3u", "%#7.4x", "%#-7o|", "%hhd", "%hhu", "%hd", "%hu", "%hhx", "%hx", "% 05d", "%+ d", "%-05d|", "%3d", "%10.7d", "%#10.7x", "%#.7o", "%#3o"};
+        static const char *const dl_[] = {"%ld", "%lld", "%jd", "%zd", "%td", "%lu", "%llu", "%ju", "%zu", "%tu", "%lo", "%llx", "%jX", "%+ld", "%.20lld", "%025lld", "%-25lld|", "%#llo", "%#llx", "%#.25llo", "%*lld", "%.*llu", "%30.25lld", "%#30.25llx", "% lld", "%.0ld", "%#.0lo"};
+        for (std::string d : ds_)
+            for (long long v : IVALS)
+            {
+                std::vector<Arg> a;
+                if (d.find('*') != std::string::npos) a.push_back(AI(r.range(-3, 12)));
+                a.push_back(AI(v));
+                emit("pf", B(d), a, true);
+            }
+        for (std::string d : dl_)
+            for (long long v : LVALS)
+            {
+                std::vector<Arg> a;
+                if (d.find('*') != std::string::npos) a.push_back(AI(r.range(-3, 30)));
+                a.push_back(AL(v));
+                emit("pf", B(d), a, true);
+            }
+        // all 8-bit values through %c, %hhd, %hhu; all `*` widths/precisions in a band
+        for (int v = -130; v < 260; v++)
+        {
+            emit("pf", B("[%c]"), {AI(v)}, true);
+            emit("pf", B("%hhd %hhu"), {AI(v), AI(v)}, true);
+        }
+        for (int w = -20; w <= 20; w++)
+            for (int p = -2; p <= 12; p++)
+            {
+                emit("pf", B("%*.*d|"), {AI(w), AI(p), AI(r.pick(IVALS))}, true);
+                emit("pf", B("%0*.*x|"), {AI(w), AI(p), AI(r.pick(IVALS))}, true);
+                emit("pf", B("%*.*s|"), {AI(w), AI(p), rnd_str(r, p >= 0 ? p : -1)}, true);
+                emit("pf", B("<%*p>"), {AI(w), AP(r.pick(PVALS))}, false);
+            }
+    }
+    // (3) strings: empty / short / exactly sized unterminated with a precision
+    {
+        for (int n = 0; n <= 12; n++)
+            for (int p = 0; p <= 13; p++)
+            {
+                bytes s = rnd_text(r, (size_t)n, true);
+                std::string pd = "%." + std::to_string(p) + "s";
+                emit("pf", B(pd), {AS(s, true)}, true);
+                if (p <= n) emit("pf", B(pd), {AS(s, false)}, true);
+                emit("pf", B("%-15.*s|"), {AI(p), AS(s, true)}, true);
+                emit("pf", B("%15.*s|"), {AI(p), p <= n ? AS(s, false) : AS(s, true)}, true);
+            }
+        emit("pf", B("%s"), {AS(B(""), true)}, true);
+        emit("pf", B("%s%s%s"), {AS(B("a"), true), AS(B(""), true), AS(B("bc"), true)}, true);
+        { Arg a; a.kind = 'n'; emit("pf", B("%s|%.3s|%10s"), {a, a, a}, false); }
+    }
+    // (4) several directives in one format, with literal text
+    long n4 = th ? 40000 : 6000;
+    for (long k = 0; k < n4; k++)
+    {
+        bytes f;
+        std::vector<Arg> args;
+        int nd = (int)r.range(1, 3);
+        for (int d = 0; d < nd; d++)
+        {
+            bytes lit = rnd_text(r, (size_t)r.below(4), true);
+            f.insert(f.end(), lit.begin(), lit.end());
+            Spec s;
+            s.conv = CONVS[r.below(10)];
+            bool strict = r.chance(75); // mostly ISO-defined combinations
+            unsigned mask = (unsigned)r.below(32);
+            if (strict)
+            {
+                if (strchr("diucsp", s.conv)) mask &= ~8u;       // '#'
+                if (strchr("csp", s.conv)) mask &= ~16u;         // '0'
+                if (s.conv == 'p') mask &= 1u;
+                if (s.conv == '%') mask = 0;
+            }
+            s.flags = flags_of(r, mask);
+            if (!(strict && s.conv == '%'))
+            {
+                int wk = (int)r.below(4);
+                s.width = wk == 0 ? "" : wk == 1 ? "*" : std::to_string(r.range(1, 25));
+                s.wstar = r.range(-25, 25);
+                if (!(strict && (s.conv == 'c' || s.conv == 'p')))
+                {
+                    int pk = (int)r.below(5);
+                    s.prec = pk == 0 ? "" : pk == 1 ? ".*" : pk == 2 ? "." : "." + std::to_string(r.range(0, 25));
+                    s.pstar = r.range(-2, 25);
+                }
+                if (!(strict && strchr("csp", s.conv)) && r.chance(50))
+                    s.len = LENS[r.below(LENS.size())];
+            }
+            if (args.size() + 3 > MAXARGS) break;
+            put_dir(r, s, f, args);
+        }
+        bytes lit = rnd_text(r, (size_t)r.below(4), true);
+        f.insert(f.end(), lit.begin(), lit.end());
+        const char *op = k % 11 == 0 ? "sp" : k % 11 == 1 ? "spv" : "pf";
+        if (k % 11 == 2)
+        {
+            // vfdprintf with an output error after `limit` characters
+            Parsed P = classify(f, args);
+            if (finding_key(P, args).empty())
+            {
+                std::string line = hex(f);
+                for (auto &a : args) line += " " + arg_str(a);
+                printf("fd %ld %s\n", (long)r.range(-1, 12), line.c_str());
+            }
+            continue;
+        }
+        emit(op, f, args, op[0] == 'p' && op[1] == 'f');
+    }
+    // (5) token soup: malformed and unusual directives (model vs code only;
+    //     glibc is consulted only where ISO defines the behaviour)
+    {
+        static const char *const tok[] = {"%", "%", "%", "-", "+", " ", "#", "0", "1", "2", "9", "10", "*", ".", ".", "h", "hh", "l", "ll", "j", "z", "t", "L", "d", "i", "u", "o", "x", "X", "c", "s", "p", "%%", "q", "y", "\t", "k", "Z", "\x80", "\xff", "5"};
+        long n5 = th ? 30000 : 5000;
+        for (long k = 0; k < n5; k++)
+        {
+            bytes f;
+            int nt = (int)r.range(1, 9);
+            for (int t = 0; t < nt; t++)
+                for (const char *c = tok[r.below(sizeof tok / sizeof tok[0])]; *c; c++) f.push_back((uint8_t)*c);
+            Parsed P = classify(f, {});
+            if (P.need.size() > MAXARGS) continue;
+            // widths/precisions through `*` need their values before the string
+            // arguments can be sized: two passes
+            std::vector<Arg> args;
+            for (char kd : P.need)
+                args.push_back(kd == 'i' ? AI(r.chance(50) ? r.range(-4, 14) : rnd_int(r)) : kd == 'l' ? AL(rnd_long(r)) : kd == 'p' ? AP(r.pick(PVALS)) : AS(rnd_text(r, (size_t)r.below(6), true), true));
+            // star arguments must stay small (they are widths)
+            Parsed Q = classify(f, args);
+            bool ok = true;
+            for (auto &d : Q.dirs)
+                if (labs(d.width) > 64 || labs(d.prec) > 64) ok = false;
+            // a `*` value is any 'i' argument that is not a conversion's value:
+            // simply clamp every int that a star consumed
+            if (!ok)
+            {
+                for (auto &a : args)
+                    if (a.kind == 'i' && (a.v > 64 || a.v < -64)) a.v = a.v % 13;
+            }
+            emit("pf", f, args, true);
+        }
+    }
+}
 
 int main(int argc, char **argv) { return main_(argc, argv, gen, run_op); }
